@@ -1,0 +1,58 @@
+//go:build verif
+// +build verif
+
+package gmtls
+
+import (
+	"io"
+	"net"
+	"sync/atomic"
+)
+
+// Hooks for the verification harness (build tag "verif" only). Nothing here changes the behaviour of
+// existing code: it only constructs internal objects in states that the handshake normally produces.
+
+// VerifEstablished returns a Conn over conn in the state reached after a completed GMSSL handshake
+// that negotiated suiteID, with the given record-protection keys for the two directions.
+// For the CBC suite iv is the 16-byte initial IV (unused, GMSSL records carry an explicit IV); for
+// the GCM suite it is the 4-byte implicit nonce.
+func VerifEstablished(conn net.Conn, isClient bool, suiteID uint16, inMac, inKey, inIV, outMac, outKey, outIV []byte, rnd io.Reader) *Conn {
+	var suite *cipherSuite
+	for _, s := range gmCipherSuites {
+		if s.id == suiteID {
+			suite = s
+		}
+	}
+	if suite == nil {
+		return nil
+	}
+	c := &Conn{conn: conn, isClient: isClient, config: &Config{Rand: rnd}}
+	c.vers = VersionGMSSL
+	c.haveVers = true
+	c.cipherSuite = suiteID
+	set := func(hc *halfConn, mac, key, iv []byte, isRead bool) {
+		hc.version = VersionGMSSL
+		if suite.cipher != nil {
+			hc.cipher = suite.cipher(key, iv, isRead)
+			hc.mac = suite.mac(VersionGMSSL, mac)
+		} else {
+			hc.cipher = suite.aead(key, iv)
+		}
+	}
+	set(&c.in, inMac, inKey, inIV, true)
+	set(&c.out, outMac, outKey, outIV, false)
+	atomic.StoreUint32(&c.handshakeStatus, 1)
+	return c
+}
+
+// VerifSeq returns the current implicit sequence numbers (in, out).
+func (c *Conn) VerifSeq() (in, out [8]byte) { return c.in.seq, c.out.seq }
+
+// VerifSetSeq sets the implicit sequence numbers.
+func (c *Conn) VerifSetSeq(in, out [8]byte) { c.in.seq, c.out.seq = in, out }
+
+// VerifExtractPadding exposes extractPadding.
+func VerifExtractPadding(payload []byte) (int, byte) { return extractPadding(payload) }
+
+// VerifPadToBlockSize exposes padToBlockSize.
+func VerifPadToBlockSize(payload []byte, bs int) ([]byte, []byte) { return padToBlockSize(payload, bs) }
